@@ -122,7 +122,7 @@ fn render(op: &Op) -> (usize, String) {
         Op::CreateDb(d) => (*d, format!("create-db {} tok-{} {}", DBS[*d].0, DBS[*d].0, DBS[*d].1)),
         Op::Set(d, k, v) => (*d, format!("set {} {}", k, VALUES[*v])),
         Op::Remove(d, k) => (*d, format!("remove {}", k)),
-        Op::Inc(d, k) => (*d, format!("increment {} 2", k)),
+        Op::Inc(d, k) => (*d, format!("increment {} {}", k, if *d == 2 { 0 } else { 2 })),
         Op::Snapshot(d) => (*d, format!("snapshot false {}", DBS[*d].0)),
     }
 }
